@@ -183,7 +183,7 @@ def ind_to_poi(I, a, b, n, kind='uni'):
     if kind == 'uni':
         X = I / (n - 1) * (b - a) + a
     elif kind == 'cheb':
-        X = np.cos(np.pi * I / (n - 1)) * (b - a) / 2 + (b + a) / 2
+        X = np.cos(np.pi * I / (n - 1)) * (b - a) / 2 + (b / 2 + a / 2)
     else:
         raise ValueError(f'Unknown grid type "{kind}"')
 
@@ -271,7 +271,7 @@ def poi_scale(X, a, b, kind='uni'):
         Xsc[Xsc > 1.] = 1.
 
     elif kind == 'cheb':
-        Xsc = (X - (b + a) / 2) * (2 / (b - a))
+        Xsc = (X - (b / 2 + a / 2)) * (2 / (b - a))
         Xsc[Xsc < -1.] = -1.
         Xsc[Xsc > +1.] = +1.
 
